@@ -110,6 +110,32 @@ theorem infer_or_sound (F : List (List String)) (N R : List Child)
       cases hq
       simp at h
 
+/-- … and below the top of the tree, where the sets a node has to produce are the *projections* of the observed sets
+onto its own event names: the same conclusion for every `s` that agrees, on the names of the node, with some observed
+set `s0`.  (`infer_or_sound` is the case `s0 = s`.) -/
+theorem infer_or_sound_proj (F : List (List String)) (N R : List Child)
+    (hdisj : ∀ x, x ∈ labelsOfC N → x ∉ labelsOfC R) (s : List String)
+    (hproj : ∃ s0 ∈ F, ∀ x, (x ∈ labelsOfC N ∨ x ∈ labelsOfC R) → (x ∈ s0 ↔ x ∈ s)) (hraw : Raw N R s) :
+    (IsOr F N R → NewOr N R s ∨ s = []) ∧ (¬ IsOr F N R → NewAnd N R s) := by
+  refine ⟨(infer_or_sound (s :: F) N R hdisj s (List.mem_cons_self ..) hraw).1 ∘ ?_, ?_⟩
+  · intro h
+    rcases h with h | ⟨t, ht, h1, h2⟩
+    · exact Or.inl h
+    · exact Or.inr ⟨t, List.mem_cons_of_mem _ ht, h1, h2⟩
+  · intro hno
+    apply (infer_or_sound (s :: F) N R hdisj s (List.mem_cons_self ..) hraw).2
+    intro h
+    apply hno
+    rcases h with h | ⟨t, ht, ⟨x, hxt, hxN⟩, h2⟩
+    · exact Or.inl h
+    · rcases List.mem_cons.mp ht with rfl | ht
+      · -- the witness is `s` itself: `s0` shows the same
+        obtain ⟨s0, hs0, hag⟩ := hproj
+        refine Or.inr ⟨s0, hs0, ⟨x, (hag x (Or.inl hxN)).mpr hxt, hxN⟩, ?_⟩
+        intro y hy hyR
+        exact h2 y ((hag y (Or.inr hyR)).mp hy) hyR
+      · exact Or.inr ⟨t, ht, ⟨x, hxt, hxN⟩, h2⟩
+
 /-- the executable test is the decision above, on the labels of the subtrees -/
 theorem checkIsOr_iff (sets : List (List String)) (nonTau removed : List PTree) :
     checkIsOr sets nonTau removed = true ↔
